@@ -422,6 +422,14 @@ func validateNonEmpty(v interface{}, name string) error {
 }
 
 func validateNonEmptyWithAllowNil(v interface{}, _ string, allowNil bool) error {
+	// the validator is about the value: look through pointers, like the numeric
+	// validators do (a nil pointer is handled by the callers)
+	if rv := reflect.ValueOf(v); rv.IsValid() && rv.Kind() == reflect.Ptr && !rv.IsNil() {
+		if cv := chaseValue(rv); cv.Kind() != reflect.Ptr && cv.Kind() != reflect.Interface {
+			v = cv.Interface()
+		}
+	}
+
 	if s, ok := v.(string); ok {
 		if s == "" {
 			return ErrStringEmpty
